@@ -73,8 +73,9 @@ def e1_jobs(prop, tier, seed):
         jobs += seq_jobs("rel", "exh", seed, n, ["--depth", "2", "--secs", "150"] + base, "exh-rel", crash=crash, timeout=600)
         jobs += seq_jobs("rel", "exh", seed, n, ["--depth", "2", "--secs", "150", "--parity", "packed"] + base, "exh-packed", crash=crash, timeout=600)
     else:
-        jobs += seq_jobs("rel", "exh", seed, 4 * n, ["--depth", "3", "--secs", "500"] + base, "exh-rel", crash=crash, timeout=1200)
-        jobs += seq_jobs("dbg", "exh", seed, n, ["--depth", "2", "--secs", "500"] + base, "exh-dbg", crash=crash, timeout=1200)
+        jobs += seq_jobs("rel", "exh", seed, 2 * n, ["--depth", "3", "--secs", "420"] + base, "exh-rel", crash=crash, timeout=1200)
+        jobs += seq_jobs("rel", "exh", seed, n, ["--depth", "2", "--secs", "420", "--parity", "packed"] + base, "exh-packed", crash=crash, timeout=1200)
+        jobs += seq_jobs("dbg", "exh", seed, n, ["--depth", "2", "--secs", "420"] + base, "exh-dbg", crash=crash, timeout=1200)
     # random walks on the ledger builds; the three parity modes are spread over the shards
     wr, wd = (500, 150) if quick else (12000, 4000)
     for bname, cnt in (("rel", wr), ("dbg", wd)):
